@@ -208,6 +208,9 @@ func (g *ModGraph) Reach(entries []*ssa.Function, cut func(Edge) bool) map[*ssa.
 			if cut != nil && cut(e) {
 				continue
 			}
+			if isTestSupport(pkgPathOfFunc(e.To)) {
+				continue // test-support packages are never production code paths
+			}
 			if _, ok := parent[e.To]; ok {
 				continue
 			}
